@@ -1,30 +1,137 @@
 PROPERTY = 'C08'
-LOCKS_CXX = []
+import itertools, os
 def thr(fn, n): return {fn: ['a', 'b', 'c'][:n]}
+def ops(n): return [dict(('OP%d' % i, o) for i, o in enumerate(c)) for c in itertools.product([0, 1], repeat=n)]
+def roles2(rs): return [{'R0': a, 'R1': b} for a, b in itertools.combinations_with_replacement(rs, 2)]
+def roles3(rs): return [{'R0': a, 'R1': b, 'R2': c} for a, b, c in itertools.combinations_with_replacement(rs, 3)]
+QRW_CXX = ['-D__TBB_BUILD']
+RTM_CXX = ['-D__TBB_BUILD', '-mrtm']          # the library itself is built with -mrtm (cmake/compilers/*.cmake)
 UNITS = {
+  # spin_mutex / queuing_mutex / spin_rw_mutex: header-only locks (w_locks.cpp)
   'sm2': dict(wrapper='w_locks.cpp', mode='lcs', unroll=1, threads=thr('vp_thr_sm', 2)),
   'sm3': dict(wrapper='w_locks.cpp', mode='lcs', unroll=1, threads=thr('vp_thr_sm', 3)),
   'qm2': dict(wrapper='w_locks.cpp', mode='lcs', unroll=1, threads=thr('vp_thr_qm', 2)),
   'qm3': dict(wrapper='w_locks.cpp', mode='lcs', unroll=1, threads=thr('vp_thr_qm', 3)),
+  'rw2': dict(wrapper='w_locks.cpp', mode='lcs', unroll=2, threads=thr('vp_thr_rw', 2)),
+  'rw3': dict(wrapper='w_locks.cpp', mode='lcs', unroll=2, threads=thr('vp_thr_rw', 3)),
+  # speculative mutexes, fallback path (w_rtm.cpp includes src/tbb/rtm_mutex.cpp + rtm_rw_mutex.cpp)
+  'rtm2': dict(wrapper='w_rtm.cpp', mode='lcs', unroll=1, cxxflags=RTM_CXX, threads=thr('vp_thr_rtm', 2)),
+  'rtmrw2': dict(wrapper='w_rtm.cpp', mode='lcs', unroll=1, cxxflags=RTM_CXX, threads=thr('vp_thr_rtmrw', 2)),
+  # x86-TSO store-buffer variants (thorough tier); *_d thread bodies update a plain word inside the critical section
+  'sm2_tso': dict(wrapper='w_locks.cpp', mode='lcs', unroll=1, tso=True, threads=thr('vp_thr_sm_d', 2)),
+  'qm2_tso': dict(wrapper='w_locks.cpp', mode='lcs', unroll=1, tso=True, threads=thr('vp_thr_qm_d', 2)),
+  'rw2_tso': dict(wrapper='w_locks.cpp', mode='lcs', unroll=1, tso=True, threads=thr('vp_thr_rw_d', 2)),
+  'sb_tso': dict(wrapper='w_locks.cpp', mode='lcs', unroll=1, tso=True, threads=thr('vp_thr_sb', 2)),
 }
-def ops(n):
-    import itertools
-    return [dict(('OP%d' % i, o) for i, o in enumerate(c)) for c in itertools.product([0, 1], repeat=n)]
+# queuing_rw_mutex (w_qrw.cpp includes src/tbb/queuing_rw_mutex.cpp); ptrhooks: tagged node pointers kept in uintptr_t words
+for k in (1, 2):
+  for n in (2, 3):
+    UNITS['qrw%d_k%d' % (n, k)] = dict(wrapper='w_qrw.cpp', mode='lcs', unroll=k, cxxflags=QRW_CXX, ptrhooks=True, threads=thr('vp_thr_qrw', n))
+B2 = {'threads': 2, 'free_rounds': 3, 'forced_rounds': 2}
+TSO_B = {'threads': 2, 'free_rounds': 2, 'forced_rounds': 2, 'spin_unroll': 1, 'memory_model': 'x86-TSO, per-thread FIFO store buffer of depth 2'}
 HARNESSES = [
   dict(name='spin_mutex_2t', unit='sm2', harness='h_mutex.c', defines={'LOCK': 1, 'NT': 2, 'ROUNDS': 3},
-       scenarios=ops(2), timeout=300, desc='spin_mutex lock/try_lock/unlock, 2 threads, all schedules with <=3 slices per thread + 2 forced rounds',
-       bounds={'threads': 2, 'free_rounds': 3, 'forced_rounds': 2, 'spin_unroll': 1}),
+       scenarios=ops(2) + [{'OP0': 2, 'OP1': 2}, {'OP0': 2, 'OP1': 3}, {'OP0': 0, 'OP1': 3}, {'OP0': 3, 'OP1': 3}], timeout=300,
+       desc='spin_mutex lock/try_lock/unlock and unique_scoped_lock acquire/try_acquire/release, 2 threads, all schedules with <=3 slices per thread + 2 forced rounds',
+       bounds=dict(B2, spin_unroll=1),
+       thorough_override=dict(defines={'LOCK': 1, 'NT': 2, 'ROUNDS': 4}, unit_override={'unroll': 2}, bounds=dict(B2, free_rounds=4, spin_unroll=2))),
+  dict(name='spin_mutex_3t', unit='sm3', harness='h_mutex.c', defines={'LOCK': 1, 'NT': 3, 'ROUNDS': 3},
+       scenarios=[{'OP0': 0, 'OP1': 0, 'OP2': 0}, {'OP0': 0, 'OP1': 2, 'OP2': 1}, {'OP0': 0, 'OP1': 1, 'OP2': 3}], timeout=300,
+       desc='spin_mutex, 3 threads', bounds={'threads': 3, 'free_rounds': 3, 'forced_rounds': 2, 'spin_unroll': 1},
+       thorough_override=dict(defines={'LOCK': 1, 'NT': 3, 'ROUNDS': 4}, unit_override={'unroll': 2}, bounds={'threads': 3, 'free_rounds': 4, 'forced_rounds': 2, 'spin_unroll': 2})),
   dict(name='queuing_mutex_2t', unit='qm2', harness='h_mutex.c', defines={'LOCK': 2, 'NT': 2, 'ROUNDS': 3},
        scenarios=ops(2), timeout=300, desc='queuing_mutex scoped_lock acquire/try_acquire/release, 2 threads',
-       bounds={'threads': 2, 'free_rounds': 3, 'forced_rounds': 2, 'spin_unroll': 1}),
+       bounds=dict(B2, spin_unroll=1),
+       thorough_override=dict(defines={'LOCK': 2, 'NT': 2, 'ROUNDS': 4}, unit_override={'unroll': 2}, timeout=1800, bounds=dict(B2, free_rounds=4, spin_unroll=2))),
   dict(name='queuing_mutex_3t', unit='qm3', harness='h_mutex.c', defines={'LOCK': 2, 'NT': 3, 'ROUNDS': 3},
-       scenarios=[{'OP0': 0, 'OP1': 0, 'OP2': 0}, {'OP0': 0, 'OP1': 0, 'OP2': 1}], timeout=600,
+       scenarios=[{'OP0': 0, 'OP1': 0, 'OP2': 0}, {'OP0': 0, 'OP1': 0, 'OP2': 1}], scenarios_thorough=ops(3), timeout=1800,
        desc='queuing_mutex 3 threads: FIFO among queued blocking requests, hand-off chain',
        bounds={'threads': 3, 'free_rounds': 3, 'forced_rounds': 2, 'spin_unroll': 1}),
+  dict(name='spin_rw_mutex_2t', unit='rw2', harness='h_rw.c', defines={'LOCK': 3, 'NT': 2, 'ROUNDS': 3},
+       scenarios=roles2(range(6)) + [{'R0': 0, 'R1': 6}], timeout=300,
+       desc='spin_rw_mutex scoped_lock: reader / writer / reader+upgrade_to_writer / writer+downgrade_to_reader / try reader / try writer, 2 threads, all 21 role pairs: '
+            '<=1 writer, no reader with a writer, upgrade()==true only if no other writer section ran in between, downgrade lets no writer in, try truthful, no lost grant',
+       bounds=dict(B2, spin_unroll=2),
+       thorough_override=dict(defines={'LOCK': 3, 'NT': 2, 'ROUNDS': 4}, timeout=1800, bounds=dict(B2, free_rounds=4, spin_unroll=2))),
+  dict(name='spin_rw_mutex_3t', unit='rw3', harness='h_rw.c', defines={'LOCK': 3, 'NT': 3, 'ROUNDS': 3},
+       scenarios_quick=[{'R0': 2, 'R1': 2, 'R2': 1, 'ROUNDS': 2}, {'R0': 0, 'R1': 2, 'R2': 1}, {'R0': 0, 'R1': 1, 'R2': 1}, {'R0': 0, 'R1': 2, 'R2': 5, 'ROUNDS': 2}],
+       scenarios_thorough=roles3(range(6)), timeout=3600,
+       desc='spin_rw_mutex, 3 threads: two upgrading readers + writer, reader + upgrader + writer, reader + 2 writers, reader + upgrader + try-writer (thorough: all 56 role multisets)',
+       bounds={'threads': 3, 'free_rounds': 'ROUNDS of the scenario (default 3)', 'forced_rounds': 2, 'spin_unroll': 2}),
+  dict(name='rtm_mutex_2t', unit='rtm2', harness='h_mutex.c', defines={'LOCK': 6, 'NT': 2, 'ROUNDS': 3},
+       scenarios=[dict(o, SPEC=sp) for sp in (0, 1) for o in ops(2)], timeout=300,
+       desc='rtm_mutex (speculative_spin_mutex), fallback path only: speculation disabled, or enabled with _xbegin always aborting with a solver-chosen status; acquire, try_acquire, release, 2 threads',
+       bounds=dict(B2, spin_unroll=1, htm='no transaction ever starts')),
+  dict(name='rtm_rw_mutex_2t', unit='rtmrw2', harness='h_rw.c', defines={'LOCK': 5, 'NT': 2, 'ROUNDS': 3},
+       scenarios_quick=[dict(o, SPEC=1) for o in [{'R0': 0, 'R1': 1}, {'R0': 1, 'R1': 1}, {'R0': 1, 'R1': 2}, {'R0': 0, 'R1': 3}, {'R0': 4, 'R1': 5}, {'R0': 1, 'R1': 5}, {'R0': 0, 'R1': 6}]],
+       scenarios_thorough=[dict(o, SPEC=sp) for sp in (1, 0) for o in roles2(range(6)) + [{'R0': 0, 'R1': 6}]], timeout=900,
+       desc='rtm_rw_mutex (speculative_spin_rw_mutex), fallback path only (_xbegin always aborts / speculation disabled): same roles and oracles as spin_rw_mutex, 2 threads',
+       bounds=dict(B2, spin_unroll=1, htm='no transaction ever starts')),
+  # ---- thorough tier: x86-TSO
+  dict(name='tso_machinery_litmus', unit='sb_tso', harness='h_sb.c', defines={'ROUNDS': 2}, scenarios=[{'FENCE': 0}, {'FENCE': 1}, {'FENCE': 2}], timeout=300, tiers=['thorough'],
+       desc='self-test of the TSO store-buffer model: store-buffering litmus outcome REACHABLE with plain stores, unreachable with tbb::detail::atomic_fence_seq_cst / with a locked exchange',
+       bounds={'threads': 2, 'free_rounds': 2, 'forced_rounds': 2, 'store_buffer_depth': 2}),
+  dict(name='spin_mutex_2t_tso', unit='sm2_tso', harness='h_mutex.c', defines={'LOCK': 1, 'NT': 2, 'ROUNDS': 2, 'DATA': 1}, scenarios=ops(2), timeout=1800, tiers=['thorough'],
+       desc='spin_mutex under x86-TSO: mutual exclusion and visibility of a plain data update made inside the critical section', bounds=TSO_B),
+  dict(name='queuing_mutex_2t_tso', unit='qm2_tso', harness='h_mutex.c', defines={'LOCK': 2, 'NT': 2, 'ROUNDS': 2, 'DATA': 1}, scenarios=ops(2), timeout=1800, tiers=['thorough'],
+       desc='queuing_mutex under x86-TSO: mutual exclusion, FIFO, hand-off, visibility of a plain data update made inside the critical section', bounds=TSO_B),
+  dict(name='spin_rw_mutex_2t_tso', unit='rw2_tso', harness='h_rw.c', defines={'LOCK': 3, 'NT': 2, 'ROUNDS': 2, 'DATA': 1}, scenarios=roles2(range(2)), timeout=1800, tiers=['thorough'],
+       desc='spin_rw_mutex lock/lock_shared under x86-TSO: readers see the update of the last writer section, the word is stable under a read lock', bounds=TSO_B),
 ]
+QRW_CBMC = ['--unwind', '16', '--object-bits', '12', '--slice-formula']
+def R(n, scs): return [dict(sc, ROUNDS=n) for sc in scs]
+P = lambda a, b: {'R0': a, 'R1': b}
+T = lambda a, b, c: {'R0': a, 'R1': b, 'R2': c}
+QRW_DESC = ('queuing_rw_mutex (real src/tbb/queuing_rw_mutex.cpp): scoped_lock acquire / try_acquire / upgrade_to_writer / downgrade_to_reader / release; '
+            '<=1 writer, no reader with a writer, upgrade()==true only if no other writer section ran in between, downgrade lets no writer in and admits a queued reader, '
+            'FIFO among conflicting queued blocking requests, no lost hand-off (blocked-state oracle), no access through a dangling/NULL node link (pointer checks)')
+HARNESSES += [
+  dict(name='queuing_rw_mutex_2t', unit='qrw2_k1', harness='h_rw.c', defines={'LOCK': 4, 'NT': 2, 'ROUNDS': 2}, cbmc=QRW_CBMC, timeout=3600,
+       scenarios_quick=[P(0, 1), P(1, 1), P(0, 6)] + R(1, [P(2, 1), P(0, 2)]),
+       scenarios_thorough=roles2(range(6)) + [P(0, 6)] + R(3, [P(0, 1), P(1, 1), P(2, 1), P(0, 2), P(2, 2), P(0, 3), P(0, 6)]),
+       desc=QRW_DESC + '; 2 threads, roles concrete per scenario (R||W, W||W, R||R+upgrade, upgrading R||arriving W, downgrade||queued R; thorough: all 21 role pairs, selected pairs with 3 free rounds)',
+       bounds={'threads': 2, 'free_rounds': 'ROUNDS of the scenario (default 2)', 'forced_rounds': 2, 'spin_unroll': 1}),
+  dict(name='queuing_rw_mutex_3t', unit='qrw3_k1', harness='h_rw.c', defines={'LOCK': 4, 'NT': 3, 'ROUNDS': 1}, cbmc=QRW_CBMC, timeout=3600, mem_gb=16,
+       scenarios_quick=[T(0, 2, 1), T(0, 0, 1)],
+       scenarios_thorough=roles3(range(4)) + [T(0, 0, 6), T(0, 2, 5), T(1, 1, 4)] + R(2, [T(0, 2, 1), T(2, 2, 1), T(0, 1, 1), T(0, 0, 1), T(0, 3, 1), T(0, 0, 2)]),
+       desc=QRW_DESC + '; 3 threads (releasing R || upgrading R || arriving W, R||R||W, ...; thorough: all 20 multisets of reader/writer/upgrade/downgrade, selected ones with 2 free rounds)',
+       bounds={'threads': 3, 'free_rounds': 'ROUNDS of the scenario (default 1)', 'forced_rounds': 2, 'spin_unroll': 1}),
+  dict(name='queuing_rw_mutex_2t_k2', unit='qrw2_k2', harness='h_rw.c', defines={'LOCK': 4, 'NT': 2, 'ROUNDS': 2}, cbmc=QRW_CBMC, timeout=3600, mem_gb=16, tiers=['thorough'],
+       scenarios=[P(0, 1), P(1, 1), P(2, 1), P(0, 2)],
+       desc=QRW_DESC + '; 2 threads, every wait/retry loop unrolled twice per slice',
+       bounds={'threads': 2, 'free_rounds': 2, 'forced_rounds': 2, 'spin_unroll': 2}),
+]
+DEV = [
+]
+if os.environ.get('C08_DEV'): HARNESSES += DEV
 MANIFEST = dict(
-  level_text='Bounded model checking of the real lock code: for 2-3 threads every interleaving (at single-IR-memory-operation granularity) with up to R scheduling rounds is decided by the SAT solver for mutual exclusion, reader/writer exclusion, truthful try-acquire and upgrade, FIFO grant order of the queuing locks and absence of a lost hand-off (two-round blocked-state oracle).',
-  level_note='Bounds per harness in evidence (threads, rounds, spin-loop unroll). Sequential consistency (TSO variants where listed). HTM (rtm_*) paths outside. Trusted: clang-14 IR, tools/ir2c.py, cbmc.',
+  level_text='Bounded model checking of the real lock code (spin_mutex, queuing_mutex, spin_rw_mutex, queuing_rw_mutex incl. src/tbb/queuing_rw_mutex.cpp, and the '
+             'fallback paths of rtm_mutex / rtm_rw_mutex): for 2-3 threads, each performing one concrete lock operation sequence per query (lock / try / upgrade / '
+             'downgrade / release), every interleaving at single-IR-memory-operation granularity with up to R free scheduling rounds + 2 forced rounds is decided '
+             'by the SAT solver for: at most one writer, no reader together with a writer, truthful try-acquire, upgrade_to_writer()==true only if no other writer '
+             'section ran in between, downgrade lets no writer in and admits a queued reader, FIFO grant order among conflicting queued requests of the queuing '
+             'locks, absence of a lost grant/hand-off (two-round blocked-state oracle), and memory safety of the queue-node links.',
+  level_note='Bounds per harness/scenario in evidence (threads, free rounds, wait-loop unroll K). Sequential consistency; x86-TSO store buffers (depth 2) for '
+             'spin_mutex, queuing_mutex, spin_rw_mutex in the thorough tier, where the protected data is a plain word updated inside the critical section. '
+             'Speculative mutexes: _xbegin never starts a transaction (HTM behaviour outside). tbb::mutex / tbb::rw_mutex are checked in C02. '
+             'Trusted: clang-14 IR, tools/ir2c.py, cbmc, the identity pointer<->integer hooks of h_rw.c.',
 )
-OUTSIDE = ['more than 3 threads / more than 2 operations per thread', 'HTM behaviour of the speculative mutexes', 'non-TSO weak memory']
-STUBS = ['sched_yield/pause: scheduling hints (no-op)']
+OUTSIDE = [
+  'more than 3 threads; more than one acquire..release cycle per thread',
+  'HTM (transactional) execution of rtm_mutex / rtm_rw_mutex: only the fallback path with _xbegin aborting / speculation disabled',
+  'tbb::mutex and tbb::rw_mutex (futex based, checked in props/C02)',
+  'queuing_rw_mutex: 3 threads with more than 2 free rounds, 2 threads with more than 3, wait-loop unroll K>=2 with 3 threads; TSO for queuing_rw_mutex and the rtm locks',
+  'schedules needing more context switches than the stated rounds; paths that spin more than K iterations per slice continue in later rounds only',
+  'non-TSO weak memory (ARM / C++11 relaxed reorderings)',
+  'starvation / fairness (writer preference of spin_rw_mutex), node lifetime protocol (queue nodes of the harness are never destroyed), scoped_lock destructors of queuing_rw_mutex',
+]
+STUBS = [
+  'sched_yield / pause: scheduling hints (no-op); a loop containing them is a busy-wait loop (thread parks and re-runs it in later rounds)',
+  '_xbegin: never starts a transaction, returns a solver-chosen abort status != _XBEGIN_STARTED; _xend/_xabort: must be unreachable',
+  'governor::cpu_features.rtm_enabled: scenario input SPEC (0/1); the object is defined in the wrapper instead of misc.cpp',
+  'vp_i2p / vp_p2i (queuing_rw_mutex): identity on pointer<->integer conversions, resolved against the finite set of queue-node addresses (+ tag bit 0)',
+]
+ASSUMPTIONS = [
+  'each thread issues the operations of its scenario role once; lock objects start unlocked (constructor state)',
+  'a thread that calls _xbegin is making progress (the real retry loops are bounded by 10 aborts)',
+]
